@@ -8,7 +8,7 @@ import (
 	"testing"
 
 	"github.com/DATA-DOG/go-sqlmock"
-	"github.com/gotid/god/internal/vrt"
+	vrt "github.com/gotid/god"
 	"github.com/gotid/god/lib/breaker"
 	"github.com/gotid/god/lib/logx"
 	"github.com/gotid/god/lib/stat"
